@@ -29,7 +29,7 @@ ANCHORS = ['penman.layout:configure', 'penman.layout:_configure_node', 'penman.l
            'penman._format:_format_edge', 'penman._format:_format_node']
 PROBES = {'C17': 10}
 MIN_EVAL = {'quick': 5000, 'thorough': 200000}
-REQUIRED_COUNTERS = ['state:none', 'state:decoded', 'const:zero']
+REQUIRED_COUNTERS = ['state:none', 'state:decoded', 'const:zero', 'model_churn_rounds']
 MODELS_RANDOM = ['default', 'amr', 'mini', 'default', 'rand1', 'rand2', 'rand3', 'rand4']
 # the no-op model is outside C03: without deinversion a triple written from its
 # target's node does not decode to itself (the property quantifies over default/AMR/custom)
@@ -49,6 +49,8 @@ def cases(ctx):
         if not ctx.time_left():
             break
         yield 'rand', {'i': i}
+        if i % 6 == 0:
+            yield 'churn', {'i': i}
 
 
 def oracle(ctx, kind, p):
@@ -81,6 +83,32 @@ def oracle(ctx, kind, p):
                             ctx.count('const:zero')
         if not p.get('partial'):
             ctx.exhaustive[f"small-graphs n<={p['nmax']} edges<={p['kmax']} (shard slice)"] = idx + 1
+    elif kind == 'churn':
+        # short-lived models of two tables that disagree on a role, used alternately on the
+        # same triples: nothing decided for one model may leak into the next
+        rng = ctx.rng('churn', p['i'])
+        d, mk1, mk2 = _graphs.churn_models(rng)
+        triples = [('a', ':instance', 'alpha'), ('a', d, 'b'), ('b', ':instance', 'beta'),
+                   ('b', ':quant', 0), ('b', ':ARG0', 'c'), ('c', ':instance', None), ('c', d, 'a')]
+        rng.shuffle(triples)
+        for k in range(6):
+            model, rm = (mk1 if k % 2 == 0 else mk2)()
+            g = Graph(list(triples))
+            for top in ('a', 'b', 'c'):
+                ctx.current = _graphs.gpayload(g, rm.name, top=top, churn=d)
+                _graphs.roundtrip(ctx, g, top, rm.name, model_rm=(model, rm), clause='model-churn',
+                                  payload=ctx.current)
+                ctx.case((p['i'], k, top, d), True)
+            del model
+            # everyday use: no model argument (penman builds a throw-away default model)
+            if k % 2:
+                import penman
+                ok, s = ctx.call(penman.encode, Graph(list(triples)), top='b', clause='encode(no model)')
+                if ok:
+                    ok, g2 = ctx.call(penman.decode, s, clause='decode(no model)')
+                    if ok and G.content(g2.triples, g2.variables(), rm) != G.content(triples, {'a', 'b', 'c'}, rm):
+                        ctx.fail('model-churn:content(no model argument)', detail={'text': s, 'role': d})
+        ctx.count('model_churn_rounds')
     elif kind == 'graph':
         g = G.from_json(p['graph'])
         _graphs.roundtrip(ctx, g, p.get('top'), p['model'], budget=True, payload=ctx.current)
